@@ -17,7 +17,8 @@ TECHNIQUE = "runtime metamorphic monitor on API-built programs: dumps -> grammar
 RULE = ("programs assembled like test_program.py does (BlackbirdProgram with operations/target/type filled in) from Python and 64-bit NumPy "
         "ints/floats/complex, bools, quote-free printable strings, flat lists in keyword position and options, 2-D int64/float64/complex128 "
         "arrays with hostile elements (-0.0, subnormal, 1e+-300, negative parts), real rational SymPy expressions in named parameters, NumPy "
-        "integer modes; non-trivial = >=2 operations and >=4 distinct value kinds incl. one of array/list/sympy/NumPy scalar; distinct by SHA-1 of the serialised text")
+        "integer modes; non-trivial = >=2 operations and >=4 distinct value kinds incl. one of array/list/sympy/NumPy scalar; distinct by SHA-1 of the serialised text"
+        '; tdm programs with p-arrays, variables named like hoisted arrays (A0..A3), p-names as arguments and as option strings, variables compared after the reload')
 BUDGET = {"quick": 6000, "thorough": 100000}
 MIN_NONTRIVIAL = {"quick": 600, "thorough": 6000}
 REQUIRED_FUNCTIONS = ["program.py:BlackbirdProgram.serialize", "program.py:numpy_to_blackbird", "program.py:_format_value", "program.py:sympy_to_blackbird"]
